@@ -733,6 +733,13 @@ class TorConfig:
                 try:
                     yield self.save()
                 except TorProtocolError as e:
+                    # Tor refused it: it is not part of Tor's (or our)
+                    # configuration
+                    try:
+                        self.SocksPort.remove(socks_config)
+                    except ValueError:
+                        pass
+                    self.unsaved.pop(self._find_real_name('SocksPort'), None)
                     extra = ''
                     if socks_config.startswith('unix:'):
                         # XXX so why don't we check this for the
